@@ -2062,6 +2062,9 @@ class LazyStackedTensorDict(TensorDictBase):
                 "Cannot pass other arguments to LazyStackedTensorDict.apply when inplace=True. Got args "
                 f"batch_size={batch_size}, device={device}, names={names}, constructor_kwargs={constructor_kwargs}"
             )
+        if out is not None and is_tensorclass(out):
+            # a lazily stacked tensorclass: write into its tensordict
+            out = out._tensordict
         if out is not None:
             if not isinstance(out, LazyStackedTensorDict):
                 raise ValueError(
